@@ -112,6 +112,9 @@ func genCacheCase(t *rapid.T) CacheCase {
 			if id() == "C14" {
 				st.Force = rapid.Bool().Draw(t, "force14")
 			}
+			if rapid.IntRange(0, 7).Draw(t, "anyabort") == 7 {
+				st.Abort = []string{rapid.SampledFrom(names).Draw(t, "aborttask")}
+			}
 			if rapid.IntRange(0, 4).Draw(t, "anyfail") == 0 {
 				st.Fail = map[string]int{}
 				for _, nme := range names {
@@ -163,6 +166,9 @@ func classifyCase(s *ev.Shard, c CacheCase) {
 			}
 			if len(st.Fail) > 0 {
 				s.Class("run_with_failing_command")
+			}
+			if len(st.Abort) > 0 {
+				s.Class("run_aborted_by_runner_error")
 			}
 			if len(st.Tasks) > 1 {
 				s.Class("run_multi_task")
@@ -310,6 +316,8 @@ func templateCases() []CacheCase {
 		run([]string{"A"}, false, nil), run([]string{"A"}, true, nil), run([]string{"A", "B"}, false, nil), run([]string{"B", "A"}, true, nil),
 		run([]string{"A", "B"}, false, map[string]int{"B": 0}), run([]string{"A", "B"}, false, map[string]int{"A": 0}),
 		run([]string{"A"}, true, map[string]int{"A": 0}), run([]string{"B"}, false, nil), {Op: "rmcache", Whole: true}, {Op: "rmcache"},
+		{Op: "run", Tasks: []string{"A", "B"}, Force: true, Abort: []string{"B"}}, {Op: "run", Tasks: []string{"A", "B"}, Abort: []string{"B"}},
+		{Op: "run", Tasks: []string{"B", "A"}, Force: true, Abort: []string{"A"}},
 	}
 	restore := [][]Step{
 		{{Op: "revert", File: "a.txt"}, {Op: "revert", File: "b.txt"}},
@@ -337,6 +345,15 @@ func templateCases() []CacheCase {
 			}
 		}
 	}
+	// boundary shifts: bytes move between the end of a file's name and the start of its content
+	// (a digest that merely concatenates path and content cannot tell the two apart)
+	shift := []TaskSpec{{Name: "A", Globs: []string{"n*"}, NCmds: 1}, {Name: "B", Files: []string{"b.txt"}, NCmds: 1}}
+	for _, pair := range [][4]string{{"n", "1Z", "n1", "Z"}, {"n1", "Z", "n", "1Z"}, {"n", ".txtHello", "n.txt", "Hello"}, {"nab", "", "na", "b"}} {
+		for _, fin := range final {
+			out = append(out, CacheCase{Tasks: shift, Init: map[string]string{pair[0]: pair[1], "b.txt": "0"}, Steps: []Step{
+				run([]string{"A", "B"}, false, nil), {Op: "delete", File: pair[0]}, {Op: "write", File: pair[2], Content: pair[3]}, fin, fin}})
+		}
+	}
 	return out
 }
 
@@ -352,7 +369,11 @@ func TestCacheTemplates(t *testing.T) {
 		if !missingOK() {
 			skip := false
 			for _, st := range c.Steps {
-				skip = skip || st.Op == "delete"
+				for _, t := range c.Tasks {
+					for _, l := range t.Files {
+						skip = skip || (st.Op == "delete" && st.File == l)
+					}
+				}
 			}
 			if skip {
 				s.Class("excluded_missing_literal_crashes")
